@@ -226,6 +226,29 @@ class Zoo(object):
         return 'PopulationPredictiveModel/%d' % kind, build, ev, \
             [np.ascontiguousarray(rng.uniform(0.3, 0.9, k)) for _ in range(2)], [times]
 
+    def posterior_predictive(self):
+        """PosteriorPredictiveModel over a posterior with several individuals: one object is asked for different
+        individuals (and for the default one) in any order"""
+        from props import seedkit as K
+        chi, rng = self.chi, self.rng
+        seed = int(rng.integers(1000))
+        ids = ['id%d' % i for i in range(int(rng.integers(2, 4)))]
+        times = rng.uniform(0, 5, 2)
+        n_ch, n_dr = int(rng.integers(1, 3)), int(rng.integers(2, 5))
+        jit = rng.uniform(0.5, 1.5, size=(3, n_ch, n_dr, len(ids)))
+
+        def build():
+            pm = chi.PredictiveModel(toy.ToyModel(1, 2, seed), [chi.GaussianErrorModel()])
+            names = pm.get_parameter_names()
+            ds = K.make_posterior(names, n_ch, n_dr, ids, lambda p_, c, d, i: float(jit[p_, c, d, i]),
+                                  pop_level=[names[-1]])
+            return chi.PosteriorPredictiveModel(pm, ds)
+        ev = {}
+        for who in [None] + ids:
+            ev['sample(%s)' % who] = (lambda m, x, who=who: m.sample(times, n_samples=2, individual=who, seed=4)
+                                      [['ID', 'Time', 'Value']].to_numpy(dtype=float))
+        return 'PosteriorPredictiveModel', build, ev, [np.zeros(1)], [times]
+
     def pkpd_loglik(self):
         """a likelihood of a dosed compartmental model (reference integrator): sensitivities switched on and
         off between evaluations rebuild the simulator, which must keep the dosing regimen"""
@@ -600,7 +623,7 @@ def run(ctx):
         rng = ctx.sub_rng(i)
         z = Zoo(chi, rng)
         makers = [z.reduced_error, z.reduced_pop, z.loglik, lambda: z.loglik(True), z.hier,
-                  lambda: z.hier(True), z.predictive, z.pop_predictive]
+                  lambda: z.hier(True), z.predictive, z.pop_predictive, z.posterior_predictive]
         made = ctx.guard(makers[i % len(makers)])
         if i % 15 == 4 and i < 15 * 40:     # (reference integrator: the slow cases are capped in the thorough tier)
             dosed = ctx.guard(z.pkpd_loglik)
